@@ -927,3 +927,53 @@ func rvals(ret *ssa.Return) []ssa.Value {
 	}
 	return out
 }
+
+// feasibleBlocks: the blocks of f reachable from the entry when branches whose outcome is already decided by a
+// dominating test of the same SSA value are followed only in the decided direction (`if !isX { continue }` followed
+// by `if isX {..} else {dead}`). The value is an SSA value, so it is the same instance at both tests whenever the
+// first test's edge lies on every path to the second.
+func feasibleBlocks(f *ssa.Function) map[*ssa.BasicBlock]bool {
+	if len(f.Blocks) == 0 {
+		return nil
+	}
+	type tst struct {
+		b    *ssa.BasicBlock
+		atom ssa.Value
+		pos  bool
+	}
+	byAtom := map[ssa.Value][]tst{}
+	for _, b := range f.Blocks {
+		if ifi := blockIf(b); ifi != nil {
+			atom, pos := condAtom(ifi.Cond)
+			if _, isConst := atom.(*ssa.Const); isConst {
+				continue
+			}
+			byAtom[atom] = append(byAtom[atom], tst{b, atom, pos})
+		}
+	}
+	cut := map[edge]bool{}
+	for _, ts := range byAtom {
+		if len(ts) < 2 {
+			continue
+		}
+		for _, d := range ts {
+			for _, b := range ts {
+				if d.b == b.b || !d.b.Dominates(b.b) {
+					continue
+				}
+				for k := 0; k < 2; k++ {
+					if d.b.Succs[0] == d.b.Succs[1] {
+						continue
+					}
+					if !edgeDominates(f, edge{d.b, k}, b.b) {
+						continue
+					}
+					atomTrue := (k == 0) == d.pos // truth of the atom on edge k of d
+					// at b the atom has that truth: the successor taken is succFor(b.pos, atomTrue); the other is dead
+					cut[edge{b.b, 1 - succFor(b.pos, atomTrue)}] = true
+				}
+			}
+		}
+	}
+	return reach(f.Blocks[0], cut, nil)
+}
